@@ -122,6 +122,13 @@ def sensitivity(pid: str, root: str, chk: Check) -> dict:
             pth = os.path.join(rdir, d, "patch.diff")
             if os.path.isfile(pth):
                 benign.append({"name": f"recorded refactoring {d}", "edits": "patch:" + pth})
+    # the seeded breaking changes written for this property by independent agents (seeded/<pid>-seedK/patch.diff): each must be reported
+    sdir = os.path.join(os.path.dirname(os.path.dirname(os.path.abspath(__file__))), "seeded")
+    if os.path.isdir(sdir):
+        for d in sorted(os.listdir(sdir)):
+            pth = os.path.join(sdir, d, "patch.diff")
+            if d.startswith(pid + "-") and os.path.isfile(pth):
+                mutants = mutants + [{"name": f"seeded change {d}", "edits": "patch:" + pth}]
     jobs = [(pid, root, v) for v in mutants + benign]
     results = []
     if jobs:
